@@ -1,6 +1,7 @@
 package main
 
 import (
+	"strings"
 	"fmt"
 	"go/types"
 	"sort"
@@ -95,7 +96,7 @@ func c05Order(c *Ctx, prop string) {
 
 	lockPath := func(in ssa.Instruction, base ssa.Value) bool {
 		p := pathOf(base)
-		return p != "" && ls.At(in)[p+".reloadMu"] == modeW
+		return p != "" && ls.At(in)[p+c.reloadMu()] == modeW
 	}
 
 	if len(swaps) == 0 {
@@ -255,7 +256,7 @@ func c05Order(c *Ctx, prop string) {
 		c.Check(rule, k+"|on-success-only", dominatedByNilEdge(pc, isReloadErr), pc.Pos(), "Purge must be dominated by the err==nil edge")
 		held := false
 		for p, m := range ls.At(pc) {
-			if m == modeW && len(p) > 9 && p[len(p)-9:] == ".reloadMu" {
+			if m == modeW && strings.HasSuffix(p, c.reloadMu()) {
 				held = true
 			}
 		}
@@ -482,7 +483,7 @@ func c05Pin(c *Ctx) {
 		}
 	}
 	walk(serve)
-	spec := &GuardSpec{Name: "FBDNSDB.dnsdb", Field: c.Field("dnsserver", "FBDNSDB", "dnsdb"), Mutex: "reloadMu"}
+	spec := &GuardSpec{Name: "FBDNSDB.dnsdb", Field: c.Field("dnsserver", "FBDNSDB", "dnsdb"), Mutex: c.mutexName("dnsserver", "FBDNSDB", "reloadMu")}
 	var offenders []string
 	nreach := 0
 	var fns []*ssa.Function
